@@ -76,6 +76,7 @@ structure Ctx where
   m : Int                  -- largest |ordinate| (units of 2^e0), at least 1
   d2 : Option Q            -- point-set distance²
   fd2 : Option Q           -- facet distance²
+  rep : List (String × String) := []   -- the distances the implementation reported: key (d / pa / pb) ↦ bits
 
 def dyad (s : String) : Option (Int × Int) := (Driver.parseHex64 s).bind F64.dyadic
 
@@ -106,12 +107,18 @@ def checkNearest (c : Ctx) (name : String) (g0 g1 : IGeom) (xs : List String) : 
     (if real then [] else [name ++ "-not-realising-distance"])
   | _, _ => [name ++ "-undefined"]
 
-/-- within-distance at threshold `t`: decided when `t` is clearly below / above, or exactly at, the true distance -/
-def checkWithin (c : Ctx) (name : String) (t res : String) : List String :=
+/-- within-distance at threshold `t`: decided when `t` is clearly below / above, or exactly at, the true distance.
+Exactly at the true distance the answer must be `true` — unless the distance the implementation itself reports through the
+corresponding entry point (`repKey`: GEOSDistance for `w`, GEOSPreparedDistance for `wa` / `wb`) is larger than `t` (it may be
+off by an ulp, which the 1e-12 clause allows): then `false` agrees with the reported distance and is accepted. -/
+def checkWithin (c : Ctx) (name repKey : String) (t res : String) : List String :=
   match dyad t, c.d2 with
   | some td, some d2 =>
     let tr := R.ofDyadic c.e0 td
     if tr.num < 0 then [] else
+    let repAbove : Bool := match (c.rep.lookup repKey).bind dyad with
+      | some rd => let rr := R.ofDyadic c.e0 rd; !(R.le rr tr)
+      | none => false
     let t2n := tr.num * tr.num
     let t2d := tr.den * tr.den
     -- compare t² with d²
@@ -119,7 +126,7 @@ def checkWithin (c : Ctx) (name : String) (t res : String) : List String :=
     let rhs := d2.num * t2d
     let big : Int := 1000000000000
     let expected : Option Bool :=
-      if lhs == rhs then some true
+      if lhs == rhs then (if repAbove then none else some true)
       else if lhs * big > rhs * (big + 4) then some true
       else if lhs * big < rhs * (big - 4) then some false
       else none
@@ -172,9 +179,9 @@ partial def checks (c : Ctx) : List String → List String
   | "nps" :: a :: b :: x :: y :: r => checkNearest c "nearest-swapped" c.B c.A [a, b, x, y] ++ checks c r
   | "npa" :: a :: b :: x :: y :: r => checkNearest c "nearest-prepared-a" c.A c.B [a, b, x, y] ++ checks c r
   | "npb" :: a :: b :: x :: y :: r => checkNearest c "nearest-prepared-b" c.B c.A [a, b, x, y] ++ checks c r
-  | "w" :: t :: v :: r => checkWithin c "within" t v ++ checks c r
-  | "wa" :: t :: v :: r => checkWithin c "within-prepared-a" t v ++ checks c r
-  | "wb" :: t :: v :: r => checkWithin c "within-prepared-b" t v ++ checks c r
+  | "w" :: t :: v :: r => checkWithin c "within" "d" t v ++ checks c r
+  | "wa" :: t :: v :: r => checkWithin c "within-prepared-a" "pa" t v ++ checks c r
+  | "wb" :: t :: v :: r => checkWithin c "within-prepared-b" "pb" t v ++ checks c r
   | "h" :: v :: r => checkHausdorff c "hausdorff" 1 c.A c.B v ++ checks c r
   | "hs" :: v :: r => checkHausdorff c "hausdorff-swapped" 1 c.B c.A v ++ checks c r
   | "hd" :: n :: v :: r => checkHausdorff c "hausdorff-densify" (n.toNat?.getD 1) c.A c.B v ++ checks c r
@@ -207,7 +214,10 @@ def distance (line : String) : String :=
           let A := compsOf f ga.g
           let B := compsOf f gb.g
           let m := (ds.map (fun d => (F64.scaleTo e0 d).natAbs)).foldl max 1
-          let c : Ctx := { e0, A, B, m := m, d2 := dist2 A B, fd2 := facetDist2 A B }
+          let rec repOf : List String → List (String × String)
+            | k :: v :: r => if k == "d" || k == "pa" || k == "pb" then (k, v) :: repOf (v :: r) else repOf (v :: r)
+            | _ => []
+          let c : Ctx := { e0, A, B, m := m, d2 := dist2 A B, fd2 := facetDist2 A B, rep := repOf res }
           -- the branch-and-bound model must agree with the brute-force specification
           let bb := match bbFacetDist2 4 A B, c.fd2 with
             | some x, some y => if Q.eqv x y then [] else ["MODEL-bb-differs-from-spec"]
